@@ -23,7 +23,8 @@ ASSUMPTIONS = ['references to unknown Beads IDs / Instrument IDs are not documen
 CHUNK = 4
 
 SAMPLE_FAULTS = ['ok', 'notfound', 'few', 'fraction-neg', 'fraction-big', 'units', 'mef-beads-failed', 'mef-beads-novalues',
-                 'mef-nocurve', 'mef-nocolumn', 'other-instrument', 'amp-differs', 'voltage-differs', 'notfound-below-a-file', 'notfound-name-too-long']
+                 'mef-nocurve', 'mef-nocolumn', 'other-instrument', 'amp-differs', 'voltage-differs', 'notfound-below-a-file', 'notfound-name-too-long',
+                 'voltage-zero']
 BEAD_FAULTS = ['ok', 'notfound', 'few', 'fraction-neg', 'fraction-big', 'unequal-mef', 'unequal-mef-3ch', 'notfound-below-a-file']
 
 # value menus of the two faults that carry a value: near misses of the recognised unit spellings, fractions just outside [0, 1]
@@ -65,6 +66,7 @@ def ensure_files():
     wg.write_fcs(os.path.join(d, 'cell_lin.fcs'), wg.cell_layout(I1, stream=21, linear_fl=True))
     wg.write_fcs(os.path.join(d, 'cell_volt.fcs'), wg.cell_layout(I1, stream=22, voltage_shift=7))
     wg.write_fcs(os.path.join(d, 'cell_i2.fcs'), wg.cell_layout(I2, stream=23))
+    wg.write_fcs(os.path.join(d, 'cell_volt0.fcs'), wg.cell_layout(I1, stream=24, voltage_shift=-500))     # detector voltage of FL1 exactly 0
     return d
 
 
@@ -84,7 +86,9 @@ def bead_rows(variant):
 
 def sample_row(pos, fault):
     """row descriptor for table position pos with the given fault"""
-    fl2_units = ['RFI', 'Channel', 'a.u.', None, 'rfi'][pos % 5]
+    # the rows of a table report different channel sets (position 2 reports FL1 only, on an integer file with saturated FL2 events: a
+    # channel registered by a failed row above it must not be gated on)
+    fl2_units = ['RFI', None, 'a.u.', None, 'Channel'][pos % 5]
     r = dict(id='S%d' % (pos + 1), inst='INST1', beads='B_OK', file='cell_%d.fcs' % (pos % 5), gate_fraction=[0.85, 0.5, 0.3, 1.0, 0.7][pos % 5],
              units={FL1: 'MEF', FL2: fl2_units})
     if pos % 5 == 3:
@@ -92,7 +96,7 @@ def sample_row(pos, fault):
         r['units'] = {FL1: 'RFI', FL2: fl2_units}
     if fault == 'ok':
         return r
-    if pos % 5 == 3 and (fault.startswith('mef-') or fault in ('other-instrument', 'amp-differs', 'voltage-differs')):
+    if pos % 5 == 3 and (fault.startswith('mef-') or fault in ('other-instrument', 'amp-differs', 'voltage-differs', 'voltage-zero')):
         # these faults only exist for a row that asks for MEF: at this position use an integer (log-amplified) file and ask for it
         r['file'] = 'cell_4.fcs'
         r['units'] = {FL1: 'MEF', FL2: fl2_units}
@@ -131,6 +135,8 @@ def sample_row(pos, fault):
         r['file'] = 'cell_lin.fcs'
     elif fault == 'voltage-differs':
         r['file'] = 'cell_volt.fcs'
+    elif fault == 'voltage-zero':
+        r['file'] = 'cell_volt0.fcs'
     else:
         raise ValueError(fault)
     return r
